@@ -440,7 +440,7 @@ func (w *Worker) readerReadString(st *State, set func(Value), r Ptr) {
 	if rem == 0 {
 		avail := p.stdinLines - st.stdinPos
 		if avail <= 0 {
-			set(Tuple{StrV{}, w.mkErr(st, strLit("EOF"))})
+			set(Tuple{StrV{}, eofUnion()})
 			return
 		}
 		// the kernel hands over a chunk of 1..avail lines (A-stdin); fork over the sizes
@@ -465,7 +465,11 @@ func (w *Worker) readerReadString(st *State, set func(Value), r Ptr) {
 		line = p.lineText[lineNo]
 	}
 	if lineNo == p.stdinLines-1 && !p.stdinNL {
-		set(Tuple{line, w.mkErr(st, strLit("EOF"))})
+		// an unterminated last line exists only if it has at least one byte
+		if _, conc := line.concrete(); !conc {
+			st.assume(mkNot(mkEq(line.toTxt(), StrV{}.toTxt())))
+		}
+		set(Tuple{line, eofUnion()})
 		return
 	}
 	set(Tuple{strCat(line, strLit("\n")), nilUnion()})
